@@ -1,0 +1,13 @@
+//go:build !verif
+
+package hclsyntax
+
+import (
+	"github.com/hashicorp/hcl/v2"
+	"github.com/zclconf/go-cty/cty"
+)
+
+func verifEvent(site string, sym *AnonSymbolExpr, ctx *hcl.EvalContext, val cty.Value, exists bool) {
+}
+
+func verifYield(site string) {}
